@@ -977,6 +977,8 @@ def check_C17(res, tier, seed):
     tv_part(res, ["reif"], n(tier, 160, 4800), seed + 17, tier, "kinds")
     tv_part(res, ["cumulative", "clauses"], n(tier, 80, 1500), seed + 17, tier, "kinds2")
     tv_part(res, ["assume", "history", "optimise", "configs"], n(tier, 60, 600), seed + 17, tier, "multi")
+    # cumulative explanations on long profiles with hole propagation (all option combinations)
+    tv_part(res, ["cumholes"], n(tier, 144, 1440), seed + 17, tier, "cumholes", min_events={"Propagated": 5000})
 
 
 C18_ADOPT = {"C01.Total": "C18.AllFixed", "C02.NoTermination": "C18.SearchTerminates",
